@@ -3,6 +3,7 @@ package exporter
 import (
 	"encoding/json"
 	"errors"
+	"sort"
 	"strconv"
 	"strings"
 
@@ -108,7 +109,14 @@ func (s *OpenAPI3Exporter) GenerateOpenAPI3(app *syslwrapper.App) (*openapi3.T, 
 		operation.Description = v.Description
 		operation.Summary = v.Summary
 		operation.Extensions = v.Extensions
-		for paramName, paramItem := range v.Params {
+		// parameters form an ordered array: emit them in name order
+		paramNames := make([]string, 0, len(v.Params))
+		for paramName := range v.Params {
+			paramNames = append(paramNames, paramName)
+		}
+		sort.Strings(paramNames)
+		for _, paramName := range paramNames {
+			paramItem := v.Params[paramName]
 			var param *openapi3.Parameter
 			var payload *openapi3.SchemaRef
 			switch paramItem.In {
@@ -199,6 +207,7 @@ func (s *OpenAPI3Exporter) exportType(t *syslwrapper.Type) *openapi3.SchemaRef {
 				required = append(required, k)
 			}
 		}
+		sort.Strings(required)
 		value.Required = required
 	case "ref":
 		ref = SyslRefToJSONSchema(t.Reference)
@@ -213,8 +222,14 @@ type validInputs struct {
 
 func convertEnum(syslEnum map[int64]string) validInputs {
 	enums := validInputs{}
-	for _, str := range syslEnum {
-		enums.Data = append(enums.Data, str)
+	// enum values form an ordered array: emit them in the order of their numbers
+	numbers := make([]int64, 0, len(syslEnum))
+	for n := range syslEnum {
+		numbers = append(numbers, n)
+	}
+	sort.Slice(numbers, func(i, j int) bool { return numbers[i] < numbers[j] })
+	for _, n := range numbers {
+		enums.Data = append(enums.Data, syslEnum[n])
 	}
 	return enums
 }
